@@ -22,24 +22,3 @@ def match(name, line):
         return bool(f and line and f(line))
     except Exception:
         return False
-
-
-@sig("C12-empty-header-name")
-def _c12_empty_name(line):
-    """proxy language: some header line of the client's request head has an empty (or blank) name"""
-    head = fed(line).split(b"\r\n\r\n")[0]
-    for l in head.split(b"\r\n")[1:]:
-        if b":" in l and l.split(b":", 1)[0].strip(b" \t\r\n\x0b\x0c") == b"":
-            return True
-    return False
-
-
-@sig("C13-upstream-empty-header-name")
-def _c13_empty_name(line):
-    """proxy language: some header line of the scripted upstream response has an empty (or blank) name"""
-    up = b"".join(unhx(t.split(":")[1]) for t in tokens(line) if t.startswith("up:"))
-    head = up.split(b"\r\n\r\n")[0]
-    for l in head.split(b"\r\n")[1:]:
-        if b":" in l and l.split(b":", 1)[0].strip(b" \t\r\n\x0b\x0c") == b"":
-            return True
-    return False
